@@ -503,6 +503,8 @@ type LoopSpec struct {
 	Anchors    []string
 	Invariants []Clause
 	Decreases  *Clause
+	Modifies   []ModTarget // loop frame: only these cells change in the loop (function-level modifies must precede loop clauses)
+	ModGiven   bool
 }
 
 type ModTarget struct {
@@ -808,9 +810,15 @@ func (db *SpecDB) loadFile(path, pkg string, assumed bool) error {
 			if curC == nil {
 				return fmt.Errorf("%s:%d: modifies outside func", path, rc.line)
 			}
-			curC.ModGiven = true
+			if curLoop != nil {
+				curLoop.ModGiven = true
+			} else {
+				curC.ModGiven = true
+			}
 			if rc.rest == "nothing" {
-				curC.ModNothing = true
+				if curLoop == nil {
+					curC.ModNothing = true
+				}
 				continue
 			}
 			for _, part := range splitTopLevel(rc.rest, ',') {
@@ -827,7 +835,11 @@ func (db *SpecDB) loadFile(path, pkg string, assumed bool) error {
 				if star {
 					e = EIndex{e, EIdent{"*"}}
 				}
-				curC.Modifies = append(curC.Modifies, ModTarget{Text: part, E: e})
+				if curLoop != nil {
+					curLoop.Modifies = append(curLoop.Modifies, ModTarget{Text: part, E: e})
+				} else {
+					curC.Modifies = append(curC.Modifies, ModTarget{Text: part, E: e})
+				}
 			}
 		case "inline":
 			if curC != nil {
